@@ -16,6 +16,7 @@ import vlib
 from vlib import log
 
 PROPS = ["C05", "C06"]
+QCOV = {}
 
 HOOK_OF_PC = {"q1": "l", "q2": "d", "o1": "x", "o2": "x", "o3": "a", "o3b": "t", "q4": "l", "q5": "c",
               "d1": "l", "r1": "l", "r2": "c", "r4": "l", "u1": "l", "u2a": "c", "u3": "c", "uc": "c",
@@ -109,6 +110,11 @@ def validate_events(evf, what, rep, prop, inputs=None):
     acc, matched, r = vlib.validate_trace("QsbrTrace", "cfg/QsbrTrace/trace.cfg", evf, timeout=1500)
     states = r.distinct
     execs = split_execs(evf)
+    m = re.search(r'"QCOV", (\d+), (\d+), (\d+), (\d+), (\d+), (\d+)', r.out)
+    if m:
+        for k, v in zip(("frees_judged", "frees_with_other_thread_registered", "frees_executed_at_once",
+                         "thread_count_clause_enforced", "drain_clause_enforced", "retire_calls"), m.groups()):
+            QCOV[k] = QCOV.get(k, 0) + int(v)
     if acc:
         return len(execs), 0, states
     # isolate the rejected execution, report it, continue with the executions after it
@@ -279,6 +285,7 @@ def run(prop, tier, seed):
         "edge_cover_replays": cover_stats,
         "replayed_behaviours": lsn, "replayed_in_lock_step": lsok,
         "executions_rejected": nrej,
+        "contract_clause_counts_on_accepted_files": dict(QCOV),
     }
     vlib.write_evidence(prop, tier, seed, "model_checking", cov,
                         vlib.ASSUME_COMMON + ["per-thread call budgets as in the listed configs; 1 object in exhaustive runs, 2-3 in random executions",
